@@ -36,7 +36,7 @@ TStart == /\ Ev.e = "Start"
           /\ pend' = [pend EXCEPT ![cur] = IF pend[cur].set /\ ~pend[cur].batch THEN [pend[cur] EXCEPT !.key = Ev.cmn]
                                           ELSE pend[cur]]
           /\ UNCHANGED <<cur, seen>>
-TFeedEnd == Ev.e \in {"Feed", "End", "Grammar", "Cmn"} /\ UNCHANGED <<cur, pend, seen>>
+TFeedEnd == Ev.e \in {"Feed", "End", "Grammar", "Cmn", "SetCmn"} /\ UNCHANGED <<cur, pend, seen>>
 
 Proj == CASE Ev.e = "Result" -> [hyp |-> Ev.hyp, hypnull |-> Ev.hypnull, score |-> Ev.score, scored |-> Ev.scored,
                                  segs |-> [i \in DOMAIN Ev.segs |-> <<Ev.segs[i].w, Ev.segs[i].sf, Ev.segs[i].ef, Ev.segs[i].ascr, Ev.segs[i].lscr>>]]
